@@ -146,8 +146,18 @@ where
     .is_ok()
 }
 
-fn three<T: Elem, N: ArrayLength>() -> Vec<GenericArray<T, N>> {
-    (0..3i64).map(|k| GenericArray::generate(|i| T::mk(10000 * k + i as i64))).collect()
+/// The array between two real fields: also a zero-sized array (N = 0, or a zero-sized T) then has an
+/// address inside a live allocation, so a view that does not start at the array (a promoted `&[]`,
+/// a dangling pointer) shows as a non-zero offset instead of coinciding with Vec's dangling pointer.
+#[repr(C)]
+struct Framed<T, N: ArrayLength> {
+    head: u64,
+    arr: GenericArray<T, N>,
+    tail: u64,
+}
+
+fn three<T: Elem, N: ArrayLength>() -> Vec<Framed<T, N>> {
+    (0..3i64).map(|k| Framed { head: 0xA5A5_0000 + k as u64, arr: GenericArray::generate(|i| T::mk(10000 * k + i as i64)), tail: 0x5A5A_0000 + k as u64 }).collect()
 }
 
 /// ids of `count` consecutive `T`s read straight from memory (no crate code involved)
@@ -164,7 +174,7 @@ where
     let mut buf = three::<T, N>();
     let mut out = vec![];
     for k in 0..12 {
-        let (off, len, ids) = read_view::<T, N, K>(k, &mut buf[o], &mut oracle);
+        let (off, len, ids) = read_view::<T, N, K>(k, &mut buf[o].arr, &mut oracle);
         out.push(off);
         out.push(len as i128);
         out.extend(ids.iter().map(|x| *x as i128));
@@ -179,13 +189,18 @@ where
     let (o, a, b, i, v) = (case[4] as usize, case[5] as usize, case[6] as usize, case[7] as usize, case[8] as i64);
     let mut oracle = vec![];
     let mut buf = three::<T, N>();
-    if !write_view::<T, N, K>(a, &mut buf[o], i, v) {
+    if !write_view::<T, N, K>(a, &mut buf[o].arr, i, v) {
         return (vec![2], oracle);
     }
-    let (_, len, ids) = read_view::<T, N, K>(b, &mut buf[o], &mut oracle);
+    let (_, len, ids) = read_view::<T, N, K>(b, &mut buf[o].arr, &mut oracle);
     let mut out = vec![0, len as i128];
     out.extend(ids.iter().map(|x| *x as i128));
-    out.extend(raw_ids(buf.as_ptr() as *const T, 3 * N::USIZE));
+    for fr in &buf {
+        out.extend(raw_ids(&fr.arr as *const GenericArray<T, N> as *const T, N::USIZE));
+        if fr.head >> 16 != 0xA5A5 || fr.tail >> 16 != 0x5A5A {
+            oracle.push("a write through a view changed memory outside the array".to_string());
+        }
+    }
     (out, oracle)
 }
 
